@@ -567,7 +567,7 @@ func runC16(c *ctx) error {
 			mk = fam.prefilled
 		}
 		dst := mk()
-		if !pre && i%5 == 2 {
+		if !pre && (i/len(c16Family))%3 == 1 { // by round, not by i: every family gets its turn whatever the number of families
 			// a destination that was used before and reset with s = s[:0]: empty slices whose spare capacity still holds
 			// old elements — nothing of them is part of the destination
 			if staleSpare(reflect.ValueOf(dst).Elem()) {
